@@ -43,5 +43,9 @@ package common
 //@ end
 
 //@ func SelectionSetToFields
-//@ props C07
+//@ props C07 C09
+//@ ensures[own] base(result) == 0 || fresh(result)
+//@ modifies fresh
+//@ loop 0 modifies fresh
+//@ loop 0 invariant[own] base(result) == 0 || freshloop(result)
 //@ end
